@@ -34,7 +34,7 @@ def czs(l):
 def correspondence(ctx, gen_ok):
     import skfem
     rng = np_seed(ctx, 18)
-    reix_cases, tag_cases, fac_cases, split_cases, ext_cases = [], [], [], [], []
+    reix_cases, tag_cases, fac_cases, split_cases, ext_cases, join_cases, carry_cases = [], [], [], [], [], [], []
     # (a) _reix on arbitrary index matrices
     base = skfem.MeshTri1()
     for k in range(ctx.n(40, 200)):
@@ -95,6 +95,36 @@ def correspondence(ctx, gen_ok):
         ext_cases.append((f'({cnat(tr.p.shape[1])}, {cnat(nl)}, {cmat_nat(tr.t)})', cmat_nat(w.t), ('extrude', nl, tr.t.shape[1])))
         split_cases.append((f'(inr ({cnat(1)}, {cmat_nat(w.t)}))', f'({cmat_nat(w.to_meshtet().t)}, [])',
                             ('wedge_to_meshtet', None, w.t.shape[1])))
+    # (e) join, remove_duplicate_nodes, facet carry-over of to_meshtri
+    def zcols(p):
+        return clist([czs(c) for c in np.asarray(p).T.astype(int).tolist()])
+    for k in range(ctx.n(24, 100)):
+        name = ['MeshTri1', 'MeshQuad1', 'MeshTet1', 'MeshHex1'][k % 4]
+        m1 = rand_mesh1(name, rng, size=[2, 3] if k % 4 < 2 else [2, 2, 2], integer=True)
+        ax = int(rng.integers(0, m1.p.shape[0]))
+        dv = [0.0] * m1.p.shape[0]
+        dv[ax] = float(m1.p[ax].max() - m1.p[ax].min())
+        m2 = m1.translated(dv) if k % 3 else m1.mirrored(tuple(float(d == ax) for d in range(m1.p.shape[0])),
+                                                         tuple(float(m1.p[ax].max()) if d == ax else 0.0
+                                                               for d in range(m1.p.shape[0])))
+        M = m1 + m2
+        srt = 1 if name == 'MeshTri1' else 0
+        join_cases.append((f'(inl ({cnat(srt)}, {zcols(m1.p)}, {zcols(m2.p)}, {cmat_nat(m1.t)}, {cmat_nat(m2.t)}))',
+                           f'({zcols(M.p)}, {cmat_nat(M.t)})', ('join', name, int(M.p.shape[1]), int(m1.p.shape[1]))))
+        pd, td = O.with_duplicates(m1, rng)
+        md = type(m1)(pd, td)
+        Md = md.remove_duplicate_nodes()
+        join_cases.append((f'(inr ({cnat(srt)}, {zcols(md.p)}, {cmat_nat(md.t)}))', f'({zcols(Md.p)}, {cmat_nat(Md.t)})',
+                           ('dedupe', name, int(Md.p.shape[1]), int(md.p.shape[1]))))
+    for k in range(ctx.n(16, 60)):
+        q = rand_mesh1('MeshQuad1', rng, size=[2, int(rng.integers(2, 4))], integer=True)
+        nf = q.facets.shape[1]
+        b = rng.choice(nf, size=int(rng.integers(0, nf + 1)), replace=False).astype(np.int32)
+        q = q.with_boundaries({'b': b})
+        for style in (None, 'x'):
+            M = q.to_meshtri(style=style)
+            carry_cases.append((f'({cmat_nat(q.facets.T)}, {cmat_nat(M.facets.T)}, {cnats(b)})',
+                                f'(Some {cnats(np.asarray(M.boundaries["b"]))})', ('carry', style, len(b))))
     if not gen_ok:
         return
     imp = 'Require Import Model.C18_Surgery Gen.C18Gen.\nFrom Coq Require Import List Arith Bool ZArith.'
@@ -124,6 +154,16 @@ Definition split (c : (nat * nat * mat nat * list nat) + (nat * mat nat)) : mat 
   | inr (_, t) => (split_rows t gen_wedge_split, [])
   end.
 Definition extr (c : nat * nat * mat nat) : mat nat := let '(nv, nl, t) := c in extrude_t nv nl t.
+Definition keys_eqb := list_eqb zs_eqb.
+Definition maybe_sort (srt : nat) (t : mat nat) : mat nat :=
+  match srt with 0 => t | _ => sort_cols (length (nth 0 t [])) t end.
+Definition joined (c : (nat * list key * list key * mat nat * mat nat) + (nat * list key * mat nat)) : list key * mat nat :=
+  match c with
+  | inl (srt, p1, p2, t1, t2) => (gen_join_p p1 p2, maybe_sort srt (gen_join_t p1 p2 t1 t2))
+  | inr (srt, p, t) => (gen_dedupe_p p, maybe_sort srt (gen_dedupe_t p t))
+  end.
+Definition carry (c : mat nat * mat nat * list nat) : option (list nat) :=
+  let '(OF, NF, b) := c in gen_carry_boundary OF NF b.
 '''
     jobs = [
         lambda: ctx.corr('reix', imp, 'reix_all', 'reix_out_eqb', reix_cases, defs=defs, nontrivial=lambda r: r[3] >= 2),
@@ -133,6 +173,10 @@ Definition extr (c : nat * nat * mat nat) : mat nat := let '(nv, nl, t) := c in 
         lambda: ctx.corr('splits', imp, 'split', '(pair_eqb natss_eqb nats_eqb)', split_cases, defs=defs,
                          nontrivial=lambda r: r[2] >= 2),
         lambda: ctx.corr('extrude', imp, 'extr', 'natss_eqb', ext_cases, defs=defs, nontrivial=lambda r: r[1] >= 3),
+        lambda: ctx.corr('join_and_dedupe', imp, 'joined', '(pair_eqb keys_eqb natss_eqb)', join_cases, defs=defs,
+                         nontrivial=lambda r: r[2] < 2 * r[3] if r[0] == 'join' else r[2] < r[3]),
+        lambda: ctx.corr('to_meshtri_boundaries', imp, 'carry', '(option_eqb nats_eqb)', carry_cases, defs=defs,
+                         nontrivial=lambda r: r[2] >= 2),
     ]
     from concurrent.futures import ThreadPoolExecutor
     with ThreadPoolExecutor(len(jobs)) as ex:          # the coqc runs are independent processes
